@@ -226,7 +226,11 @@ class SNum(Sym):
         if k == 'int':
             a, b = z3.ToReal(a), z3.ToReal(b)
         ctx().note_division(b)
-        return SNum(a / b, 'real')
+        r = SNum(a / b, 'real')
+        # remember the exact numerator/denominator: lets a contract state `value == n/d`
+        # as the two polynomial identities n == n_spec, d == d_spec (no division in the VC)
+        r.frac = (SNum(a, 'real'), SNum(b, 'real'))
+        return r
 
     def __truediv__(self, o):
         return self._bin(o, SNum._div)
@@ -272,7 +276,12 @@ class SNum(Sym):
         return self
 
     def __abs__(self):
-        return SNum(z3.If(self.t >= 0, self.t, -self.t), self.kind)
+        r = SNum(z3.If(self.t >= 0, self.t, -self.t), self.kind)
+        fr = getattr(self, 'frac', None)
+        if fr is not None:
+            r.frac = fr                                # value == |n/d| (frac_abs marks the modulus)
+            r.frac_abs = True
+        return r
 
     def __pow__(self, e):
         if isinstance(e, SNum) and z3.is_int_value(e.t):
@@ -378,6 +387,8 @@ class SNum(Sym):
         return SNum(z3.IntVal(0), 'int')
 
     def to_real(self):
+        if self.kind == 'real':
+            return self
         return SNum(to_real_term(self), 'real')
 
     def __float__(self):
@@ -518,6 +529,10 @@ class SComplex(Sym):
         if not isinstance(o, (SComplex, complex)):
             return SComplex(self.re / o, self.im / o)
         o = to_complex(o)
+        if _is_zero_poly(o.im):
+            # divisor is (polynomially) real: z = (a + jb)/c
+            im = SNum(z3.IntVal(0), 'int') if _is_zero_poly(self.im) else self.im / o.re
+            return SComplex(self.re / o.re, im)
         d = o.re * o.re + o.im * o.im
         n = self * o.conjugate()
         return SComplex(n.re / d, n.im / d)
@@ -544,6 +559,8 @@ class SComplex(Sym):
         return self.re * self.re + self.im * self.im
 
     def __abs__(self):
+        if _is_zero_poly(self.im):
+            return abs(self.re.to_real())
         return self.abs2().to_real().sqrt()
 
     @property
@@ -584,6 +601,24 @@ class SComplex(Sym):
 
     def __repr__(self):
         return "SComplex(%s, %s)" % (self.re.t, self.im.t)
+
+
+def _is_zero_poly(x):
+    """True when the term is identically zero as a polynomial (z3 sum-of-monomials rewriter)"""
+    x = lift(x)
+    t = x.t
+
+    def zero(v):
+        if z3.is_int_value(v):
+            return v.as_long() == 0
+        if z3.is_rational_value(v):
+            return v.as_fraction() == 0
+        return None
+    z = zero(t)
+    if z is not None:
+        return z
+    from . import poly
+    return poly.is_zero(t)
 
 
 def to_complex(x):
